@@ -424,10 +424,14 @@ fn loop_cases(thorough: bool) -> Vec<loopdrv::LoopCase> {
                     // a max_time budget that runs out in the middle of tuning (tuned sizes only)
                     let budgets: &[Option<u64>] = if s.is_none() { &[None, Some(20), Some(60)] } else { &[None] };
                     for overhead in [0u64, 3] {
-                        for alloc in [0usize, 2, 5] {
+                        for alloc in [0usize, 2, 5, 3, 6] {
                             for counters in 0..7 {
                               for &budget in budgets {
                                 if !thorough && counters >= 4 && alloc != 0 {
+                                    continue;
+                                }
+                                // grow-only / free-only samples: the plain counter configurations suffice
+                                if (alloc == 3 || alloc == 6) && (counters >= 2 || overhead != 0) {
                                     continue;
                                 }
                                 if !thorough && budget.is_some() && (counters >= 2 || overhead != 0) {
